@@ -3,13 +3,13 @@ from propcfg.common import *
 CFG = {
     "disabled": False,
     "props": "Props/C12.v",
-    "corr": ["Corr/CacheCorr.v", "Corr/CbStoreCorr.v", "Corr/StreamCorr.v"],
+    "corr": ["Corr/CacheCorr.v", "Corr/CbStoreCorr.v", "Corr/StreamCorr.v", "Corr/NodeCorr.v"],
     "corr_extra_note": "the stream engine (C11) also runs here: it counts the callbacks left registered in the real callback store after streams that end inside the hand-over",
-    "engines": [("cache", []), ("cbstore", []), ("stream", [])],
+    "engines": [("cache", []), ("cbstore", []), ("stream", []), ("node", [])],
     "axioms": [],
     "trusted": COMMON_TB + [
         "validity of a partial packet is decided by the real VerifyPartial in the harness and enters the cache model as the symbolic rule 'chained: the signed message covers the previous signature; unchained: it does not' (checked against real threshold BLS on both scheme families on every run)",
-        "the store window and the flush points of runAggregator are read from the source by the translator (Gen/AggWindow.v); runAggregator itself is not executed by this check (its cache is a local variable)",
+        "the store window and the flush points of runAggregator are read from the source by the translator (Gen/AggWindow.v); runAggregator itself runs inside the node engine (one real beacon.Handler, Model/Node.v agg_partial with the same window): long-outage scenarios deliver a threshold of valid partials for a round beyond the window (class C12-partial-outside-window-not-ignored)",
         "callback store: a model step is one harness-visible event, the worker dequeues eagerly; Go's scheduler, the fairness of sync.RWMutex and the random iteration order of the callbacks map are not modelled (the correspondence compares only what does not depend on them); one producer issues Puts",
         "blocking is observed on the real code as 'did not return within 2 s' (microseconds expected): the only timing-based observable",
     ],
